@@ -152,6 +152,10 @@ impl FromStr for NetworkAddress {
     type Err = anyhow::Error;
 
     fn from_str(s: &str) -> Result<Self> {
+        // `Display` renders "ip:port (four-words)"; accept our own rendering by dropping the
+        // parenthesised suffix before trying the other formats.
+        let s = s.split(" (").next().unwrap_or(s).trim();
+
         // First try to parse as a socket address
         if let Ok(socket_addr) = SocketAddr::from_str(s) {
             return Ok(Self::new(socket_addr));
